@@ -57,6 +57,9 @@ struct FnDir {
     inline_option: bool,
     /// `@@noautopred`: switch E27 off for this directive
     noautopred: bool,
+    /// E28 `@@streq`: every `a == b` / `a != b` of the directive is a comparison of texts (`&str` / `String` in any mix, which
+    /// Verus gives no meaning): it becomes `vx_str_eq(&(a), &(b))` / `!vx_str_eq(..)`, a stand-in with std's meaning (same characters)
+    streq: bool,
     /// `@@inline_option map`: also `opt.map(|p| body)` -> `match opt { Some(p) => Some(body), None => None }`
     /// (opt-in: `.map` is also a method of `Result` and of iterators, where the match would not type-check)
     inline_option_map: bool,
@@ -332,6 +335,7 @@ fn parse_template(path: &Path, nodes: &mut Vec<Node>) {
                         }
                         "viter" => d.viter = true,
                         "noautopred" => d.noautopred = true,
+                        "streq" => d.streq = true,
                         "strslice" => d.strslice = true,
                         "inline_or_insert_with" => d.inline_entry = true,
                         "inline_option" => { d.inline_option = true; if rest.split_whitespace().any(|w| w == "map") { d.inline_option_map = true; } }
@@ -505,6 +509,8 @@ struct Ed<'a> {
     caughts_used: Vec<usize>,
     /// E20: locals bound to an `async { .. }` block that matches a `@@caught` anchor (name, index)
     caught_futs: Vec<(String, usize)>,
+    /// E20: the source texts of the arguments of the user-code call of `@@caught` entry n (`$argK` / `$args` in its oracle text)
+    caught_args: HashMap<usize, Vec<String>>,
     viter_used: usize,
     inline_entry_used: usize,
     letargs_used: Vec<usize>,
@@ -533,6 +539,8 @@ struct Ed<'a> {
     pub auto_pred_headers: usize,
     /// source ranges whose text is REPLACED by declared text (E24 statements, E25 closures): the piece does not cover them
     pub dropped: Vec<(usize, usize)>,
+    /// placeholders usable in `@@restmt` anchors (`$hK` -> name of parameter K of the hoisted closure)
+    pub anchor_names: Vec<(String, String)>,
 }
 
 impl<'a> Ed<'a> {
@@ -581,6 +589,7 @@ impl<'a> Ed<'a> {
             inline_then_used: vec![],
             caughts_used: vec![0; dir.caughts.len()],
             caught_futs: vec![],
+            caught_args: HashMap::new(),
             viter_used: 0,
             inline_entry_used: 0,
             letargs_used: vec![0; dir.letargs.len()],
@@ -602,6 +611,7 @@ impl<'a> Ed<'a> {
             bool_pred_closures: vec![],
             auto_pred_headers: 0,
             dropped: vec![],
+            anchor_names: vec![],
         }
     }
     /// E22 (cont.): the body of an inlined closure is no longer a closure body, so a `return` in it would
@@ -623,6 +633,21 @@ impl<'a> Ed<'a> {
             self.push(ie, ie, " else {", "E22-early-return-of-inlined-closure", true);
             self.push(be - 1, be - 1, "}", "E22-early-return-of-inlined-closure", true);
         }
+    }
+    /// E20: `$argK` / `$args` in the oracle text of `@@caught` entry n = the SOURCE text of the arguments the user code is
+    /// called with (so that the verified text depends on them); a placeholder without such an argument is left in place
+    /// (the generated text then does not compile: undecided)
+    fn with_user_call_args(&self, n: usize, repl: String) -> String {
+        let mut out = repl;
+        if let Some(args) = self.caught_args.get(&n) {
+            if out.contains("$args") {
+                out = out.replace("$args", &args.join(", "));
+            }
+            for k in (0..args.len()).rev() {
+                out = out.replace(&format!("$arg{k}"), &args[k]);
+            }
+        }
+        out
     }
     fn push(&mut self, start: usize, end: usize, text: impl Into<String>, kind: &'static str, swallow: bool) {
         self.edits.push(Edit { start, end, text: text.into(), kind, swallow });
@@ -758,6 +783,11 @@ impl<'a, 'ast> Visit<'ast> for Ed<'a> {
         }
         // E24: a whole statement replaced by declared text (a composition of pieces verified elsewhere)
         for (k, (anchor, text)) in self.dir.restmts.iter().enumerate() {
+            // `$hK` in the anchor = the name the source gives to parameter K of the hoisted closure
+            let mut anchor = anchor.clone();
+            for (ph, name) in &self.anchor_names {
+                anchor = anchor.replace(ph.as_str(), name.as_str());
+            }
             if anchor_match(txt, anchor.as_str()) {
                 self.restmts_used[k] += 1;
                 self.push(r.start, r.end, text.trim_end().to_string(), "E24-statement-replaced-by-declared-text", true);
@@ -778,6 +808,8 @@ impl<'a, 'ast> Visit<'ast> for Ed<'a> {
                     let hit = self.dir.caughts.iter().position(|(anchor, _)| t.starts_with(anchor.trim_start_matches('~').trim()));
                     if let Some(n) = hit {
                         self.caught_futs.push((pi.ident.to_string(), n));
+                        let args = c.args.iter().map(|a| self.src[a.span().byte_range()].to_string()).collect();
+                        self.caught_args.insert(n, args);
                         let cr = c.span().byte_range();
                         self.push(cr.start, cr.end, "vx_unguarded_user_code::<()>()", "E20-unguarded-user-code", true);
                         return;
@@ -788,6 +820,9 @@ impl<'a, 'ast> Visit<'ast> for Ed<'a> {
                     let hit = self.dir.caughts.iter().position(|(anchor, _)| body.contains(anchor.trim_start_matches('~').trim()));
                     if let Some(n) = hit {
                         self.caught_futs.push((pi.ident.to_string(), n));
+                        if let Some(args) = user_call_args(self.src, &a.block, self.dir.caughts[n].0.trim_start_matches('~').trim()) {
+                            self.caught_args.insert(n, args);
+                        }
                         self.push(r.start, r.end, "// vx: E20 — async block of user code, run under catch_unwind below", "E20-caught-user-code", true);
                         return;
                     }
@@ -951,7 +986,7 @@ impl<'a, 'ast> Visit<'ast> for Ed<'a> {
                         if let Some(n) = hit {
                             self.caughts_used[n] += 1;
                             let es = e.span().byte_range();
-                            let repl = caught_guarded(&self.dir.caughts[n].1);
+                            let repl = self.with_user_call_args(n, caught_guarded(&self.dir.caughts[n].1));
                             self.push(es.start, es.end, repl, "E20-caught-user-code", true);
                             return;
                         }
@@ -966,7 +1001,9 @@ impl<'a, 'ast> Visit<'ast> for Ed<'a> {
                         if let Some(n) = hit {
                             self.caughts_used[n] += 1;
                             let es = e.span().byte_range();
-                            let repl = format!("({{ vx_unguarded_user_code::<()>(); {} }})", caught_guarded(&self.dir.caughts[n].1));
+                            let args = uc.args.iter().map(|a| self.src[a.span().byte_range()].to_string()).collect();
+                            self.caught_args.insert(n, args);
+                            let repl = format!("({{ vx_unguarded_user_code::<()>(); {} }})", self.with_user_call_args(n, caught_guarded(&self.dir.caughts[n].1)));
                             self.push(es.start, es.end, repl, "E20-unguarded-user-code", true);
                             return;
                         }
@@ -979,7 +1016,11 @@ impl<'a, 'ast> Visit<'ast> for Ed<'a> {
                             if body.contains(anchor.trim_start_matches('~').trim()) {
                                 self.caughts_used[n] += 1;
                                 let es = e.span().byte_range();
-                                self.push(es.start, es.end, caught_guarded(repl), "E20-caught-user-code", true);
+                                if let Some(args) = user_call_args(self.src, &a.block, anchor.trim_start_matches('~').trim()) {
+                                    self.caught_args.insert(n, args);
+                                }
+                                let repl = self.with_user_call_args(n, caught_guarded(repl));
+                                self.push(es.start, es.end, repl, "E20-caught-user-code", true);
                                 return;
                             }
                         }
@@ -1296,6 +1337,16 @@ impl<'a, 'ast> Visit<'ast> for Ed<'a> {
                     self.push(r.start, r.end, "||", "E6-boolop", false);
                 }
                 _ => {}
+            }
+        }
+        if self.dir.streq {
+            let neg = match &e.op { syn::BinOp::Eq(_) => Some(false), syn::BinOp::Ne(_) => Some(true), _ => None };
+            if let Some(neg) = neg {
+                let l = e.left.span().byte_range();
+                let r = e.right.span().byte_range();
+                self.push(l.start, l.start, if neg { "!vx_str_eq(&(" } else { "vx_str_eq(&(" }, "E28-text-comparison", false);
+                self.push(l.end, r.start, "), &(", "E28-text-comparison", false);
+                self.push(r.end, r.end, "))", "E28-text-comparison", false);
             }
         }
         visit::visit_expr_binary(self, e);
@@ -2371,6 +2422,15 @@ fn main() {
                             hpre = hpre.replace(&format!("${k}"), &name);
                         }
                     }
+                    for (k, p) in c.inputs.iter().enumerate() {
+                        let inner = match p {
+                            syn::Pat::Type(pt) => &*pt.pat,
+                            other => other,
+                        };
+                        if let syn::Pat::Ident(pi) = inner {
+                            ed.anchor_names.push((format!("$h{k}"), pi.ident.to_string()));
+                        }
+                    }
                     ed.resolve_closure_prefs(None, Some(&c.body));
                     ed.visit_expr(&c.body);
                     ed.finish_cfg();
@@ -2873,6 +2933,23 @@ fn slice_key(selector: &str, from: Option<&str>, block: Option<&str>) -> String 
         Some(b) if b != from => format!("{selector} @from:{from} @block:{b}"),
         _ => format!("{selector} @from:{from}"),
     }
+}
+
+/// the argument texts of the first call in `block` whose text starts with `anchor` (the user-code call of E20)
+fn user_call_args(src: &str, block: &syn::Block, anchor: &str) -> Option<Vec<String>> {
+    struct F<'a> { src: &'a str, anchor: &'a str, found: Option<Vec<String>> }
+    impl<'ast, 'a> Visit<'ast> for F<'a> {
+        fn visit_expr_call(&mut self, c: &'ast syn::ExprCall) {
+            if self.found.is_none() && self.src[c.span().byte_range()].starts_with(self.anchor) {
+                self.found = Some(c.args.iter().map(|a| self.src[a.span().byte_range()].to_string()).collect());
+                return;
+            }
+            visit::visit_expr_call(self, c);
+        }
+    }
+    let mut f = F { src, anchor, found: None };
+    f.visit_block(block);
+    f.found
 }
 
 fn caught_guarded(repl: &str) -> String {
